@@ -42,10 +42,28 @@ var rewrites = []rewrite{
 	{"handlers/memcached/batched/relay.go", map[string]string{"math/rand": modPath + "/verifshim/vrand"}},
 	{"handlers/memcached/cluster/handler.go", map[string]string{"net": modPath + "/verifshim/vnet"}},
 	{"handlers/memcached/batched/types.go", map[string]string{"crypto/rand": modPath + "/verifshim/vcrand"}},
+	// the real deployment path (main programs -> listeners -> handler constructors) over in-memory sockets
+	{"server/listen.go", map[string]string{"net": modPath + "/verifshim/vnet"}},
+	{"handlers/memcached/constructors.go", map[string]string{"net": modPath + "/verifshim/vnet"}},
+}
+
+// mainPrograms are rend's main packages, copied (never edited) into importable virtual packages:
+// init functions become VerifInit<n>, main becomes VerifMain, and the process-level facilities
+// (command line, signal handler, debug http endpoint, the final wait-for-ever) go through shims.
+var mainPrograms = []struct{ file, pkg string }{
+	{"app/memproxy.go", "memproxyapp"},
+	{"app/memcached_cluster_proxy.go", "clusterproxyapp"},
+}
+
+var mainImports = map[string]string{
+	"flag":      modPath + "/verifshim/vflag",
+	"net/http":  modPath + "/verifshim/vhttp",
+	"os/signal": modPath + "/verifshim/vsignal",
+	"sync":      modPath + "/verifshim/vsync",
 }
 
 // shimPkgs are directories under -shim copied to <repo>/verifshim/<name>.
-var shimPkgs = []string{"vsync", "vatomic", "vnet", "vrand", "vcrand", "vyield"}
+var shimPkgs = []string{"vsync", "vatomic", "vnet", "vrand", "vcrand", "vyield", "vflag", "vhttp", "vsignal"}
 
 func die(f string, a ...interface{}) {
 	fmt.Fprintf(os.Stderr, "overlaygen: "+f+"\n", a...)
@@ -142,6 +160,10 @@ func main() {
 		}
 	}
 	extra(*repo, *work, replace)
+	extraOrcas(*repo, *work, replace)
+	for _, mp := range mainPrograms {
+		genMain(*repo, *work, replace, mp.file, mp.pkg)
+	}
 	b, _ := json.MarshalIndent(map[string]interface{}{"Replace": replace}, "", " ")
 	if err := os.WriteFile(*out, b, 0o644); err != nil {
 		die("%v", err)
@@ -369,4 +391,104 @@ func VerifForget(sock string) {
 		die("%v", err)
 	}
 	replace[filepath.Join(repo, "handlers", "memcached", "batched", "verif_export.go")] = dst
+}
+
+// genMain copies one of rend's main programs into the virtual package verifshim/<pkg>.
+func genMain(repo, work string, replace map[string]string, file, pkg string) {
+	src := filepath.Join(repo, file)
+	fset := token.NewFileSet()
+	f, err := parser.ParseFile(fset, src, nil, parser.ParseComments)
+	if err != nil {
+		die("parse %s: %v", src, err)
+	}
+	if f.Name.Name != "main" {
+		die("%s is no longer package main", file)
+	}
+	f.Name.Name = pkg
+	sawFlag := false
+	for _, d := range f.Decls {
+		gd, ok := d.(*ast.GenDecl)
+		if !ok || gd.Tok != token.IMPORT {
+			continue
+		}
+		var keep []ast.Spec
+		for _, sp := range gd.Specs {
+			im := sp.(*ast.ImportSpec)
+			p, _ := strconv.Unquote(im.Path.Value)
+			if p == "net/http/pprof" {
+				continue
+			}
+			if nw, ok := mainImports[p]; ok {
+				if im.Name == nil {
+					im.Name = ast.NewIdent(p[strings.LastIndex(p, "/")+1:])
+				}
+				im.EndPos = 0
+				im.Path.Value = strconv.Quote(nw)
+				if p == "flag" {
+					sawFlag = true
+				}
+			}
+			keep = append(keep, sp)
+		}
+		gd.Specs = keep
+	}
+	if !sawFlag {
+		die("%s no longer imports \"flag\": the harness cannot configure it", file)
+	}
+	var calls []string
+	ninit, sawMain := 0, false
+	for _, d := range f.Decls {
+		fn, ok := d.(*ast.FuncDecl)
+		if !ok || fn.Recv != nil {
+			continue
+		}
+		switch fn.Name.Name {
+		case "init":
+			fn.Name.Name = fmt.Sprintf("VerifInit%d", ninit)
+			calls = append(calls, fn.Name.Name+"()")
+			ninit++
+		case "main":
+			fn.Name.Name = "VerifMain"
+			sawMain = true
+		}
+	}
+	if !sawMain {
+		die("%s no longer defines main", file)
+	}
+	dst := filepath.Join(work, "app__"+pkg+".go")
+	w, err := os.Create(dst)
+	if err != nil {
+		die("%v", err)
+	}
+	if err := printer.Fprint(w, fset, f); err != nil {
+		die("print %s: %v", file, err)
+	}
+	fmt.Fprintf(w, "\n// VerifRun is what starting the program does: every init function in source order, then main.\nfunc VerifRun() {\n\t%s\n\tVerifMain()\n}\n", strings.Join(calls, "\n\t"))
+	w.Close()
+	replace[filepath.Join(repo, "verifshim", pkg, "main.go")] = dst
+}
+
+// extraOrcas lets the harness start over with the process-wide lock-set table (rend allows 1023
+// lock sets per process; every deployment built by the real main program takes one).
+func extraOrcas(repo, work string, replace map[string]string) {
+	b, err := os.ReadFile(filepath.Join(repo, "orcas", "locked.go"))
+	if err != nil {
+		die("%v", err)
+	}
+	if !strings.Contains(string(b), "curslot uint32") {
+		die("orcas/locked.go no longer declares curslot uint32: the lock-set reset export cannot be generated")
+	}
+	exp := `package orcas
+
+import "sync/atomic"
+
+// VerifResetLockSets makes the next lock set the first one again (sets handed out earlier stay
+// with the orchestrators that hold them).
+func VerifResetLockSets() { atomic.StoreUint32(&curslot, 0) }
+`
+	dst := filepath.Join(work, "orcas__verif_reset.go")
+	if err := os.WriteFile(dst, []byte(exp), 0o644); err != nil {
+		die("%v", err)
+	}
+	replace[filepath.Join(repo, "orcas", "verif_reset.go")] = dst
 }
